@@ -28,7 +28,7 @@ from typing import Dict, List, Optional, Set, Tuple
 
 from sa import e7
 from sa.cfg import CFG, describe_path
-from sa.core import AnalysisError, Finding, FuncInfo, Program, Report, program, src, walk_no_nested
+from sa.core import AnalysisError, Finding, FuncInfo, Program, Report, norm_locals, program, src, walk_no_nested
 from sa.effects import EffectAnalysis
 
 DAGMOD = "vtlengine.AST.DAG"
@@ -166,6 +166,8 @@ def run(rep: Report, tier: str) -> None:
 
     traversal_on_every_path(P, rep, "R12.1")
     alias_after_operand(P, rep, "R12.1")
+    rep.rule("R12.11", "the interpreter evaluates a deep copy of a user-defined operator's stored body on every path")
+    udo_body_copied(P, rep, "R12.11")
 
     # ---- R12.2 -----------------------------------------------------------------------------------------
     vs = P.func(f"{DAG}.visit_Start")
@@ -521,7 +523,31 @@ def operand_mutations(P: Program, rep: Report, rule: str, module_prefixes: Tuple
 TRAVERSAL_GUARDS: Dict[Tuple[str, str, str], str] = {
     ("visit_BinOp", "right", "node.op == AS or node.op == TO"): "`X as a` / `rename a to b`: the right side is a NAME being introduced, not an expression that reads data",
     ("visit_RegularAggregation", "children", "node.op in [KEEP, DROP, RENAME]"): "keep / drop / rename list component names of the clause dataset; there is no expression to analyse",
+    ("visit_ParamOp", "params", "§.parameters[§].type_.kind == 'DataSet'"): "legacy branch for a ParamOp whose op is a user-defined operator name: the constructor builds UDOCall nodes for those "
+                                                                            "calls (Expr.py / ExprComponents.py), and a ParamOp's op is always a built-in keyword",
+    ("visit_UDOCall", "params", "not isinstance(§, Constant) and § is not Component"): "a constant reads nothing; an argument bound to a component-typed parameter is the NAME of a component of the "
+                                                                                     "dataset argument, not a script-level value",
 }
+
+
+def _pure_kind_test(t: ast.AST, mentions) -> bool:
+    """a test about WHAT the field / its element is (None, empty, of some class) and nothing else: isinstance(x, ...), x is [not] None, x, not x,
+    and boolean combinations of those"""
+    if isinstance(t, ast.BoolOp):
+        return all(_pure_kind_test(v, mentions) for v in t.values)
+    if isinstance(t, ast.UnaryOp) and isinstance(t.op, ast.Not):
+        return _pure_kind_test(t.operand, mentions)
+    if isinstance(t, ast.Call) and isinstance(t.func, ast.Name) and t.func.id in ("isinstance", "hasattr", "len") and t.args and mentions(t.args[0]):
+        return True
+    if isinstance(t, ast.Compare) and len(t.ops) == 1 and mentions(t.left):
+        c0 = t.comparators[0]
+        if isinstance(t.ops[0], (ast.Is, ast.IsNot)) and isinstance(c0, ast.Constant) and c0.value is None:
+            return True
+        if isinstance(t.left, ast.Call) and isinstance(t.left.func, ast.Name) and t.left.func.id == "len" and isinstance(c0, ast.Constant):
+            return True
+    if isinstance(t, (ast.Name, ast.Attribute)) and mentions(t):
+        return True
+    return False
 
 
 def _assume_present(fn: ast.AST, param: str, fld: str) -> ast.AST:
@@ -564,48 +590,57 @@ def traversal_on_every_path(P: Program, rep: Report, rule: str, only_nodes: Opti
     for name, nc in sorted(N.items()):
         if name == "AST" or not nc.node_fields or (only_nodes is not None and name not in only_nodes):
             continue
-        m = e7.visitor_method(P, dag, name)
-        if m is None or m.cls is None or not m.cls.qualname.startswith(DAGMOD):
+        m0 = e7.visitor_method(P, dag, name)
+        if m0 is None or m0.cls is None:
             continue
-        param = [x for x in m.params if x != "self"][0]
-        vis = e7.visited_fields(P, m, param)
-        for fld in sorted(vis & set(nc.node_fields)):
-            # the handler specialised under "the field is present": `if node.f is None: A else: B` -> B, `if node.f: A` -> A, ...
-            g = CFG(_assume_present(m.node, param, fld), for_nonempty=True)
-            elem: Set[str] = set()
-            for x in ast.walk(m.node):
-                if isinstance(x, (ast.For, ast.comprehension)) and any(isinstance(y, ast.Attribute) and y.attr == fld and isinstance(y.value, ast.Name) and y.value.id == param
-                                                                         for y in ast.walk(x.iter)):
-                    elem |= {t.id for t in ast.walk(x.target) if isinstance(t, ast.Name)}
+        # the handler itself and, when it delegates with super().visit_X(node), the inherited one (the generic ASTTemplate traversal)
+        chain = [m0]
+        if any(isinstance(x, ast.Call) and isinstance(x.func, ast.Attribute) and x.func.attr == m0.name and isinstance(x.func.value, ast.Call) and _callee_name(x.func.value) == "super"
+               for x in ast.walk(m0.node)):
+            for k in P.mro(m0.cls)[1:]:
+                if m0.name in k.methods:
+                    chain.append(k.methods[m0.name])
+                    break
+        for m in chain:
+            param = [x for x in m.params if x != "self"][0]
+            vis = e7.visited_fields(P, m, param)
+            for fld in sorted(vis & set(nc.node_fields)):
+                # the handler specialised under "the field is present": `if node.f is None: A else: B` -> B, `if node.f: A` -> A, ...
+                g = CFG(_assume_present(m.node, param, fld), for_nonempty=True)
+                elem: Set[str] = set()
+                for x in ast.walk(m.node):
+                    if isinstance(x, (ast.For, ast.comprehension)) and any(isinstance(y, ast.Attribute) and y.attr == fld and isinstance(y.value, ast.Name) and y.value.id == param
+                                                                             for y in ast.walk(x.iter)):
+                        elem |= {t.id for t in ast.walk(x.target) if isinstance(t, ast.Name)}
 
-            def mentions(e: ast.AST, fld=fld, elem=elem) -> bool:
-                return any((isinstance(y, ast.Attribute) and y.attr == fld and isinstance(y.value, ast.Name) and y.value.id == param)
-                           or (isinstance(y, ast.Name) and y.id in elem) for y in ast.walk(e))
-            vnodes, gnodes = [], []
-            for nd in g.nodes:
-                if nd.stmt is None:
-                    continue
-                for e in g.own_exprs(nd):
-                    for c in ast.walk(e):
-                        if isinstance(c, ast.Call) and isinstance(c.func, ast.Attribute) and (c.func.attr == "visit" or c.func.attr.startswith("visit_") or c.func.attr == "generic_visit"):
-                            if any(mentions(a) for a in c.args) or (c.func.attr != "visit" and any(isinstance(a, ast.Name) and a.id == param for a in c.args)):
-                                vnodes.append(nd)
-                if nd.kind in ("test", "loop"):
-                    if any(mentions(e) for e in g.own_exprs(nd)):
-                        gnodes.append(nd)
-                    elif nd.kind == "test" and isinstance(nd.stmt, ast.If):
-                        k = (m.name, fld, src(nd.stmt.test))
-                        if k in TRAVERSAL_GUARDS:
+                def mentions(e: ast.AST, fld=fld, elem=elem) -> bool:
+                    return any((isinstance(y, ast.Attribute) and y.attr == fld and isinstance(y.value, ast.Name) and y.value.id == param)
+                               or (isinstance(y, ast.Name) and y.id in elem) for y in ast.walk(e))
+                vnodes, gnodes = [], []
+                for nd in g.nodes:
+                    if nd.stmt is None:
+                        continue
+                    for e in g.own_exprs(nd):
+                        for c in ast.walk(e):
+                            if isinstance(c, ast.Call) and isinstance(c.func, ast.Attribute) and (c.func.attr == "visit" or c.func.attr.startswith("visit_") or c.func.attr == "generic_visit"):
+                                if any(mentions(a) for a in c.args) or (c.func.attr != "visit" and any(isinstance(a, ast.Name) and a.id == param for a in c.args)):
+                                    vnodes.append(nd)
+                    if nd.kind == "test" and isinstance(nd.stmt, (ast.If, ast.While)):
+                        if _pure_kind_test(nd.stmt.test, mentions):
                             gnodes.append(nd)
-                            used_guards.add(k)
-            n += 1
-            rep.instance(rule, f"every-path/{name}.{fld}", nontrivial=True, sample={"handler": m.qualname, "field": fld, "visit sites": sorted({v.lineno for v in vnodes})} if n <= 3 else None)
-            p = g.path_avoiding(g.entry, lambda x: x is g.exit, lambda x: x in vnodes or x in gnodes, follow_exc=False)
-            if p is not None:
-                rep.add(Finding(rule, f"{rule}/every-path/{name}.{fld}", m.module.rel, m.node.lineno, m.qualname,
-                                f"{m.qualname} descends into {name}.{fld} on some paths only: a path that never tests the field returns without visiting it, so datasets and "
-                                f"script-level values read inside that sub-expression create no dependency edge for the statement (it can run before its producer, or after the "
-                                f"producer's table was released)", describe_path(p)))
+                        else:
+                            k = (m.name, fld, norm_locals(src(nd.stmt.test), m.node))
+                            if k in TRAVERSAL_GUARDS:
+                                gnodes.append(nd)
+                                used_guards.add(k)
+                n += 1
+                rep.instance(rule, f"every-path/{name}.{fld}", nontrivial=True, sample={"handler": m.qualname, "field": fld, "visit sites": sorted({v.lineno for v in vnodes})} if n <= 3 else None)
+                p = g.path_avoiding(g.entry, lambda x: x is g.exit, lambda x: x in vnodes or x in gnodes, follow_exc=False)
+                if p is not None:
+                    rep.add(Finding(rule, f"{rule}/every-path/{name}.{fld}", m.module.rel, m.node.lineno, m.qualname,
+                                    f"{m.qualname} descends into {name}.{fld} on some paths only: a path that never tests the field returns without visiting it, so datasets and "
+                                    f"script-level values read inside that sub-expression create no dependency edge for the statement (it can run before its producer, or after the "
+                                    f"producer's table was released)", describe_path(p)))
     for k in used_guards:
         rep.exemption(rule, "/".join(k), TRAVERSAL_GUARDS[k])
     rep.floor(f"{rule} handler fields", n, 3 if only_nodes else 12)
@@ -642,3 +677,55 @@ def alias_after_operand(P: Program, rep: Report, rule: str) -> None:
                                         f"`{src(a)}` records the alias before the aliased operand `{root}.left` has been visited: a dataset whose name equals an alias of the same join "
                                         f"(`DS_1 as DS_1`, `DS_2 as DS_1`) is then taken for the alias, is not an input of the statement and is never loaded", describe_path(p)))
     rep.floor(f"{rule} alias recording sites", n, 1)
+
+
+
+def udo_body_copied(P: Program, rep: Report, rule: str) -> None:
+    """The interpreter keeps the body of every user-defined operator in its registry and evaluates it once per call; evaluating binds
+    the call's arguments INTO the tree (visit_VarID rewrites node.value for dataset and component parameters).  Every evaluation must
+    therefore run on a deep copy: `self.visit(E)` with E reaching the stored `["expression"]` is only allowed through deepcopy(...) on
+    every path, otherwise the first call's arguments stay in the stored body and later calls - in whatever order the statements run -
+    compute with them."""
+    f = P.func("vtlengine.Interpreter.InterpreterAnalyzer.visit_UDOCall")
+    g = CFG(f.node)
+
+    def is_copy(e: ast.AST) -> bool:
+        return isinstance(e, ast.Call) and src(e.func).split(".")[-1] == "deepcopy"
+
+    def reaches_stored(e: ast.AST, depth: int = 0) -> bool:
+        for x in ast.walk(e):
+            if isinstance(x, ast.Subscript) and isinstance(x.slice, ast.Constant) and x.slice.value == "expression":
+                return True
+            if isinstance(x, ast.Name) and depth < 4:
+                for d in walk_no_nested(f.node):
+                    if isinstance(d, (ast.Assign, ast.AnnAssign)) and d.value is not None and any(isinstance(t, ast.Name) and t.id == x.id for t in (d.targets if isinstance(d, ast.Assign) else [d.target])) \
+                            and d.value is not e and reaches_stored(d.value, depth + 1):
+                        return True
+        return False
+    n = 0
+    for c in [x for x in walk_no_nested(f.node) if isinstance(x, ast.Call) and isinstance(x.func, ast.Attribute) and x.func.attr == "visit" and x.args]:
+        a = c.args[0]
+        if not reaches_stored(a):
+            continue
+        n += 1
+        rep.instance(rule, f"udo-body-copy/{norm_locals(src(c), f.node)[:50]}", nontrivial=True, sample={"visited": src(a)[:80]})
+        if is_copy(a):
+            continue
+        bad = None
+        if isinstance(a, ast.Name):
+            defs = [x for x in g.nodes if x.stmt is not None and x.kind == "stmt" and isinstance(x.stmt, (ast.Assign, ast.AnnAssign))
+                    and any(isinstance(t, ast.Name) and t.id == a.id for t in (x.stmt.targets if isinstance(x.stmt, ast.Assign) else [x.stmt.target]))]
+            copies = [x for x in defs if x.stmt.value is not None and is_copy(x.stmt.value)]
+            vnode = [x for x in g.nodes if x.stmt is not None and any(y is c for e in g.own_exprs(x) for y in ast.walk(e))]
+            for d in [x for x in defs if x not in copies]:
+                for vn in vnode:
+                    pth = g.path_avoiding(d, lambda x, vn=vn: x is vn, lambda x: x in copies, follow_exc=False)
+                    if pth is not None:
+                        bad = describe_path(pth)
+        else:
+            bad = [f"self.visit({src(a)[:60]})"]
+        if bad:
+            rep.add(Finding(rule, f"{rule}/udo-body-copy", f.module.rel, c.lineno, f.qualname,
+                            f"`{src(c)[:80]}` can evaluate the STORED body of the user-defined operator instead of a deep copy: evaluation writes the call's arguments into the tree, "
+                            f"so a second call from another statement computes with the first call's component / dataset names and the result depends on statement order", bad))
+    rep.floor(f"{rule} evaluations of a stored operator body", n, 1)
